@@ -369,34 +369,29 @@ theorem ecdh25519_point_roundtrip (p rest : Bytes) (h : p.length = 32) :
   rw [mpiRead_mpiWrite_normalized _ rest hn (by simp [h])]
   simp [Gen.ecdh25519RdLen, h]
 
-/-- Curve25519Legacy secret: stored reversed and *unstripped* (`Mpi::from_raw`).  For the clamped
-scalars key generation produces (bit 254 set) the first stored octet is never zero and the
-round trip is exact. -/
-theorem c25519_secret_roundtrip (le rest : Bytes) (h : le.length = 32) (hc : clamped le) :
-    c25519SecretRead (c25519SecretMpi le ++ rest) = some (le, rest) := by
-  obtain ⟨b, hb, hlo, _⟩ := hc
-  have hn : Normalized le.reverse := by
-    cases hr : le.reverse with
-    | nil => simp [Normalized]
-    | cons a r =>
-      have : le.getLast? = some a := by
-        rw [List.getLast?_eq_head?_reverse, hr]; rfl
-      rw [hb] at this
-      cases this
-      simp only [Normalized]
-      intro h0
-      rw [h0] at hlo
-      simp at hlo
-  simp only [c25519SecretRead, c25519SecretMpi]
-  rw [mpiRead_mpiWrite_normalized _ rest hn (by simp [h])]
-  simp [padKey, Gen.c25519PadLen, h]
+theorem fixD8f_on : Gen.fixD8fC25519Export = 1 ∧ Gen.fixD8fC25519Import = 1 := by decide
 
-/-- outside that guard the encoding is not faithful: an unclamped scalar whose top octet is zero is
-written with a bit count that is one octet short and does not come back (latent: not reachable
-from `generate`, which clamps) -/
-theorem c25519_unclamped_witness :
+/-- Curve25519Legacy secret: the little-endian scalar is stored reversed as an MPI.  **Every** 32-octet
+scalar — clamped or not, with or without zero octets at its top — is written as a well-formed MPI and
+comes back exactly (D8f: before the repairs a scalar whose top octet is zero, one key in 256 written
+by an implementation that does not clamp what it stores, was written with a malformed MPI and read
+back multiplied by 256). -/
+theorem c25519_secret_roundtrip (le rest : Bytes) (h : le.length = 32) :
+    c25519SecretRead (c25519SecretMpi le ++ rest) = some (le, rest) := by
+  have hlen : (stripZeros le.reverse).length ≤ 2048 := by
+    have := stripZeros_length_le le.reverse; simp [h] at this; omega
+  simp only [c25519SecretRead, c25519SecretMpi, fixD8f_on.1, fixD8f_on.2, if_true, mpiFromSlice]
+  rw [mpiRead_mpiWrite_normalized _ rest (stripZeros_normalized _) hlen]
+  have := padKey_stripZeros 32 le.reverse (by simp [h])
+  simp [Gen.c25519PadLen, this]
+
+/-- regression witness (D8f): the pre-repair pair did not round-trip an unclamped scalar whose top
+octet is zero, and read a short stored value back multiplied by 256 -/
+theorem c25519_prefix_witness :
     let le : Bytes := List.replicate 31 1 ++ [0]
-    le.length = 32 ∧ c25519SecretRead (c25519SecretMpi le) ≠ some (le, []) := by decide
+    le.length = 32 ∧ c25519SecretReadPreFix (c25519SecretMpiPreFix le) ≠ some (le, []) ∧
+    c25519SecretReadPreFix (mpiWrite (List.replicate 31 1)) = some (0 :: List.replicate 31 1, []) ∧
+    c25519SecretRead (mpiWrite (List.replicate 31 1)) = some (List.replicate 31 1 ++ [0], []) := by decide
 
 /-! ## shape of the generated certificate -/
 
